@@ -300,7 +300,7 @@ def run(c: sym.Ctx, spec: Dict[str, Any], n_msgs: int = 1) -> Lab:
             labels["timeout"] = 0 if outcomes[i] == "timeout0" else 5
         # type information only for some labels (as when a pre_send middleware or a foreign producer added the others)
         data = encode(broker, "t", tid_of(i), [i], labels, labels_types={"user": 3} if spec.get("partial_types", True) else None)
-        msgs.append(ackable(lab, i, data, async_ack, gate_ack=n_msgs > 1) if spec.get("ackable", True) else data)
+        msgs.append(ackable(lab, i, data, async_ack, gate_ack=n_msgs > 1 or bool(spec.get("crash"))) if spec.get("ackable", True) else data)
 
     async def warm_target() -> None:
         return None
@@ -317,6 +317,9 @@ def run(c: sym.Ctx, spec: Dict[str, Any], n_msgs: int = 1) -> Lab:
             del lab.ev[:]
             del lab.ev_t[:]
         tasks = [asyncio.ensure_future(recv.callback(message=m, raise_err=False)) for m in msgs]
+        if spec.get("crash"):
+            # the worker dies / the processing of message 0 is cancelled at a suspension point the scheduler chooses
+            lab.env["crash"] = tasks[0].cancel
         res = await asyncio.gather(*tasks, return_exceptions=True)
         for i, r in enumerate(res):
             lab.rec("cb_done", i, None if not isinstance(r, BaseException) else type(r).__name__)
